@@ -16,6 +16,6 @@ class Check(PropertyCheck):
     assumptions = ["values < 2^256"]
 
     def families(self, rng, tier):
-        return [("text.render_roundtrip", fam_text.text_cases(rng, tier)),
-                ("text.parse", fam_text.parse_cases(rng, tier)),
-                ("text.widths", fam_text.width_cases(rng, tier))]
+        return [("text.render_roundtrip", fam_text.text_cases(rng.sub("text_cases"), tier)),
+                ("text.parse", fam_text.parse_cases(rng.sub("parse_cases"), tier)),
+                ("text.widths", fam_text.width_cases(rng.sub("width_cases"), tier))]
